@@ -32,7 +32,7 @@ Outcome(i) == IF got[i] = TimedOut THEN "timeout" ELSE IF got[i] = M(i) THEN "ok
 Now == {i \in 1..N : pol[i] = "now"}
 Kills == (IF Now \subseteq ok0 THEN {} ELSE {"v0"}) \cup (IF Now \subseteq ok1 THEN {} ELSE {"v1"})
 Emit == Terminal => PrintT("SCN " \o ToJson([n |-> N, echo |-> Echo, pol |-> pol, h |-> h, outcome |-> [i \in 1..N |-> Outcome(i)],
-                                             kills |-> Kills, notifs |-> Notifs,
+                                             kills |-> Kills, notifs |-> Notifs, pre |-> Pre,
                                              nstored |-> [k \in 1..Notifs |-> \E j \in 1..Len(store[0]) : store[0][j] = NM(k)],
                                              nfiled |-> Len(store[0])]))
 =============================================================================
